@@ -38,7 +38,7 @@ theorem thresholder_pmf_range (dict : List (String × Rule)) (g : String) (s : R
     rcases thrPositive_cases dict g s with h0 | ⟨e, he, _, h1⟩
     · rw [h0]; norm_num
     · rw [h1]; exact thresholder_rule_range e.2 s (h e he)
-  simp only [pmfRow]
+  simp only [pmfRow, (src_cols _).1, (src_cols _).2]
   refine ⟨hp.1, hp.2, by linarith, by linarith, by ring⟩
 
 /-- the same with the rounding slack of the fitted floats (`p0 = 1 - p1` up to `eps`) -/
@@ -56,8 +56,10 @@ theorem thresholder_selects_group (dict : List (String × Rule)) (g : String) (r
 
 /-- a group that has no rule keeps the initial `0.0` -/
 theorem thresholder_unseen_group (dict : List (String × Rule)) (g : String) (s : Rat)
-    (h : ∀ e ∈ dict, g ≠ e.1) : thrPositive dict g s = 0 :=
-  foldl_select_absent dict g s 0 h
+    (h : ∀ e ∈ dict, g ≠ e.1) : thrPositive dict g s = 0 := by
+  unfold thrPositive
+  rw [foldl_select_absent dict g s _ h]
+  exact src_initialProb s
 
 /-- **the pmf of a row depends only on its (group, score)**: neither on the other rows of the query
     set nor on its position -/
@@ -73,6 +75,7 @@ theorem pmf_monotone_noflip (eps : Rat) (dict : List (String × Rule)) (g : Stri
     (hv : ∀ e ∈ dict, e.2.Valid eps) (hgt : ∀ e ∈ dict, e.2.allGt = true) (hs : s ≤ s') :
     thrPositive dict g s ≤ thrPositive dict g s' := by
   unfold thrPositive
+  rw [src_initialProb s, src_initialProb s']
   apply foldl_select_mono dict g s s' 0 0 (le_refl 0)
   intro e he
   exact positive_mono eps e.2 s s' (hv e he) (hgt e he) hs
